@@ -237,7 +237,14 @@ func (x *Exec) applyContract(bc *blockCtx, in ssa.Instruction, f *ssa.Function, 
 			}
 		}
 	}
-	res := x.havocResult(bc, sig, name)
+	var res *Val
+	if fc.Pure && sig.Results().Len() == 1 {
+		// deterministic: the result is a function of the arguments
+		res = x.pureFuncApp(&CEnv{x: x, st: bc.st, old: pre, vars: vars, pkg: f.Pkg, guard: bc.reach, fc: fc, depth: 3}, f, fc, args)
+		x.rangeFacts(res.T, res.Typ, bc.reach, 1)
+	} else {
+		res = x.havocResult(bc, sig, name)
+	}
 	post := &CEnv{x: x, st: bc.st, old: pre, vars: vars, pkg: f.Pkg, guard: bc.reach, fc: fc, lets: ce.lets}
 	x.bindResults(post, sig, res)
 	for _, e := range fc.Ensures {
@@ -295,12 +302,14 @@ func (x *Exec) invoke(bc *blockCtx, in ssa.Instruction, recv *Val, m *types.Func
 		res = x.havocCall(bc, sig, key, true)
 	}
 	if mc != nil {
+		// ground instance of the method contract at this call site (the
+		// quantified axiom covers applications inside specifications)
 		vars := map[string]*Val{"self": recv}
 		sig := m.Type().(*types.Signature)
 		for i := 0; i < sig.Params().Len(); i++ {
 			vars[sig.Params().At(i).Name()] = args[i]
 		}
-		ce := &CEnv{x: x, st: bc.st, old: bc.st, vars: vars, guard: bc.reach, fc: mc}
+		ce := &CEnv{x: x, st: bc.st, old: bc.st, vars: vars, guard: bc.reach, fc: mc, pkg: x.prog.pkgOfFile(mc.File)}
 		x.bindResults(ce, sig, res)
 		for _, e := range mc.Ensures {
 			x.assume(bc.reach, x.evalBool(ce, e))
@@ -327,6 +336,7 @@ func (x *Exec) pureInvoke(key string, recv *smt.Term, m *types.Func, args []*Val
 		x.declareUF(name, sorts, rs)
 		return &Val{Typ: rt, T: x.b.App(name, rs, terms...)}
 	}
+	x.ifaceAxiom(key, m)
 	switch resT.Len() {
 	case 0:
 		return nil
@@ -340,6 +350,53 @@ func (x *Exec) pureInvoke(key string, recv *smt.Term, m *types.Func, args []*Val
 	return r
 }
 
+// ifaceAxiom asserts the interface method contract of m once, as a universally
+// quantified axiom triggered by applications of the method symbol:
+//   forall self, params. ensures(self, params, m(self, params))
+func (x *Exec) ifaceAxiom(key string, m *types.Func) {
+	if x.ufDecl["ifax:"+key] {
+		return
+	}
+	x.ufDecl["ifax:"+key] = true
+	if x.rootC == nil || x.rootC.Opts["ifaceaxioms"] == "" {
+		return
+	}
+	_, mc := x.prog.ifaceMethod(m)
+	if mc == nil || len(mc.Ensures) == 0 {
+		return
+	}
+	sig := m.Type().(*types.Signature)
+	x.qseq++
+	self := &Val{Typ: m.Type().(*types.Signature).Recv().Type(), T: x.b.BoundVar(fmt.Sprintf("self!q%d", x.qseq), "Iface")}
+	vars := map[string]*Val{"self": self}
+	bvs := []*smt.Term{self.T}
+	var args []*Val
+	for i := 0; i < sig.Params().Len(); i++ {
+		p := sig.Params().At(i)
+		bv := x.b.BoundVar(fmt.Sprintf("%s!q%d", smt.Sanitize(p.Name()), x.qseq), x.so.SortOf(p.Type()))
+		v := &Val{Typ: p.Type(), T: bv}
+		vars[p.Name()] = v
+		args = append(args, v)
+		bvs = append(bvs, bv)
+	}
+	res := x.pureInvoke(key, self.T, m, args, sig.Results())
+	st := newState()
+	ce := &CEnv{x: x, st: st, old: st, vars: vars, guard: x.b.True, fc: mc, depth: 1, pkg: x.prog.pkgOfFile(mc.File)}
+	x.bindResults(ce, sig, res)
+	var pats []*smt.Term
+	if res != nil && res.T != nil {
+		pats = []*smt.Term{res.T}
+	} else if res != nil && len(res.Tup) > 0 {
+		pats = []*smt.Term{res.Tup[0].T}
+	}
+	for _, e := range mc.Ensures {
+		body := x.evalBool(ce, e)
+		q := x.b.Quant("forall", bvs, body, pats...)
+		x.hyps = append(x.hyps, q)
+	}
+	x.note("interface contract assumed for every implementation of " + key + " (re-established by the combinators under contract)")
+}
+
 // callDynamic models a call through a function value.
 func (x *Exec) callDynamic(bc *blockCtx, in ssa.Instruction, fv *Val, cc *ssa.CallCommon, args []*Val) *Val {
 	ft := x.asTerm(fv)
@@ -351,32 +408,7 @@ func (x *Exec) callDynamic(bc *blockCtx, in ssa.Instruction, fv *Val, cc *ssa.Ca
 	bc.st.heaps["G_calls"] = x.sto(h, ft, x.b.Add(x.sel(h, ft, "Int"), x.b.Int(1)))
 	pure := x.isPureFuncValue(bc.fr, cc.Value)
 	if pure {
-		sorts := []string{"Int"}
-		terms := []*smt.Term{ft}
-		for _, a := range args {
-			t := x.asTerm(a)
-			sorts = append(sorts, t.Sort)
-			terms = append(terms, t)
-		}
-		res := sig.Results()
-		sk := smt.Sanitize(strings.Join(sorts[1:], "_"))
-		mk := func(i int, rt types.Type) *Val {
-			rs := x.so.SortOf(rt)
-			name := fmt.Sprintf("apply_%s_to_%s_r%d", sk, smt.Sanitize(rs), i)
-			x.declareUF(name, sorts, rs)
-			return &Val{Typ: rt, T: x.b.App(name, rs, terms...)}
-		}
-		switch res.Len() {
-		case 0:
-			return nil
-		case 1:
-			return mk(0, res.At(0).Type())
-		}
-		r := &Val{Typ: res}
-		for i := 0; i < res.Len(); i++ {
-			r.Tup = append(r.Tup, mk(i, res.At(i).Type()))
-		}
-		return r
+		return x.applyFuncValue(ft, sig, args)
 	}
 	// impure callback: results havoc; heap effects: by default callbacks are
 	// assumed not to write memory the function under contract reads (stated).
@@ -703,4 +735,34 @@ func (x *Exec) resolveHeapName(ce *CEnv, s string) string {
 		cfail("assigns: unknown heap %s", s)
 	}
 	return s
+}
+
+// applyFuncValue: the uninterpreted application of a (pure) function value.
+func (x *Exec) applyFuncValue(ft *smt.Term, sig *types.Signature, args []*Val) *Val {
+	sorts := []string{"Int"}
+	terms := []*smt.Term{ft}
+	for _, a := range args {
+		t := x.asTerm(a)
+		sorts = append(sorts, t.Sort)
+		terms = append(terms, t)
+	}
+	res := sig.Results()
+	sk := smt.Sanitize(strings.Join(sorts[1:], "_"))
+	mk := func(i int, rt types.Type) *Val {
+		rs := x.so.SortOf(rt)
+		name := fmt.Sprintf("apply_%s_to_%s_r%d", sk, smt.Sanitize(rs), i)
+		x.declareUF(name, sorts, rs)
+		return &Val{Typ: rt, T: x.b.App(name, rs, terms...)}
+	}
+	switch res.Len() {
+	case 0:
+		return nil
+	case 1:
+		return mk(0, res.At(0).Type())
+	}
+	r := &Val{Typ: res}
+	for i := 0; i < res.Len(); i++ {
+		r.Tup = append(r.Tup, mk(i, res.At(i).Type()))
+	}
+	return r
 }
